@@ -307,14 +307,17 @@ def pipeline_cases(ctx, tab):
         if r.is_tsm_affected():
             continue
         prt, ict, space = r.get_telemetry()
-        counts = r.get_counts()
+        # earth counts as written to the file (sample 5*p + c), not as reported by the reader
+        counts = np.asarray(b.samples, dtype=np.int64).reshape(n, -1, 5)
         nums = [int(x) for x in r.scans["scan_line_number"]]
         with warnings.catch_warnings():
             warnings.simplefilter("ignore")
             ch = r.get_calibrated_channels()
+            if k % 2:
+                ch = r.get_calibrated_channels()     # the second request on the same reader
         for ci, chan in enumerate((3, 4, 5)):
             col = {3: -3, 4: -2, 5: -1}[chan]
-            cidx = counts.shape[2] - 3 + ci
+            cidx = 2 + ci
             px = rng.sample(range(counts.shape[1]), 5)
             for line in rng.sample(range(n), min(n, 6)):
                 cs = [int(counts[line, p, cidx]) for p in px]
